@@ -4,8 +4,8 @@ claim("C01",
  "static analysis: table-driven machine extraction + abstract interpretation of switch arms + product fixpoint against an RFC 8259 reference automaton",
  "DESIGN.md §3 Engine A, §4 C01")
 claim("C03",
- "Static decision of front-end agreement as acceptors and event sources under every chunking: the four JSON dispatch loops are explored in product with one reference automaton in single- and multi-document mode (agreement with a common reference implies pairwise agreement), with a buffer refill allowed between any two bytes and every length-guarded fast path explored both ways; value/token events must be emitted at the same byte with the same kind. For sen.Parser/sen.Tokenizer the structural sibling clause 'no action code without a case' is decided. Equality of value trees is not decided (values are outside the abstract domain).",
- "Trusted: as C01. Known findings (sen.Tokenizer lacks arms for ( ) + and C comments) are listed in KNOWN_FINDINGS.txt by (mode, byte) key. JSON-subset-of-SEN acceptance is not claimed.",
+ "Static decision of front-end agreement as acceptors and event sources under every chunking: the four JSON dispatch loops are explored in product with one reference automaton in single- and multi-document mode (agreement with a common reference implies pairwise agreement), with a buffer refill allowed between any two bytes and every length-guarded fast path explored both ways; value/token events must be emitted at the same byte with the same kind. For sen.Parser/sen.Tokenizer the structural sibling clause 'no action code without a case' is decided. Equality of value trees is not decided (values are outside the abstract domain). The SEN front-ends are decided in three further views: as a superset of the JSON reference (A-subset), each in product with itself under arbitrary versus one-byte chunking (A-senchunk: verdicts, containers and the sequence of observable operations agree for every chunking of SEN-only syntax too), and parser against tokenizer under one-byte chunking with an under-approximated 'can still accept' analysis (A-sencross); the []byte and reader entries must reject the same first bytes in their preamble (A-preamble).",
+ "Trusted: as C01. Known findings are listed in KNOWN_FINDINGS.txt by key: sen.Tokenizer lacks arms for ( ) + and C comments (18 cells); sen.Parse/Tokenize reject a leading 0xEF that is not a BOM while the reader entries parse it (2, pinned by the suite). A-sencross can miss a divergence that exists only below two levels of nesting; value trees are not compared.",
  "static analysis: machine extraction + product fixpoint with chunking non-determinism; event-synchrony comparison; dispatch-switch exhaustiveness over reachable table cells",
  "DESIGN.md §3 Engine A, §4 C03")
 claim("C06",
@@ -29,17 +29,17 @@ claim("C04",
  "static analysis: per-byte abstract interpretation of the escaping loop against an RFC 8259 section 7 specification table",
  "DESIGN.md §3 Engine G, §4 C04")
 claim("C08",
- "Static decision of the ownership and locking shape that concurrent use relies on: no use of a pooled object after Put (SSA reachability), no package-level function returns memory owned by a pooled or caller-supplied Writer (SSA ownership propagation through field loads, reslices, phi and owning methods), package-level maps are immutable after init / written only by their registration API / accessed under the package mutex (lockset over the intra-package call graph). A necessary condition of race freedom, not race freedom.",
+ "Static decision of the ownership and locking shape that concurrent use relies on: no use of a pooled object after Put (SSA reachability), no package-level function returns memory owned by a pooled or caller-supplied Writer (SSA ownership propagation through field loads, reslices, phi and owning methods), package-level maps are immutable after init / written only by their registration API / accessed under the package mutex (lockset over the intra-package call graph). A necessary condition of race freedom, not race freedom. Also: the container kinds unwrapped when a Recomposer registers a type cover the kinds recomposition descends through (R-prereg: no lazy registration, i.e. no map write, during a shared Recompose), and entry parity of the pooled reusable types (state an entry does not reset is shared between callers).",
  "Trusted: go/ssa construction; ownership is tracked within a function plus method summaries (no general pointer analysis is available); registration APIs (jp.Register*Function, asm.Define) are configuration outside the concurrent call set.",
  "static analysis: SSA ownership/escape propagation, use-after-Put reachability, lockset with lock-held-on-entry fixpoint",
  "DESIGN.md §3 Engine D, §4 C08")
 claim("C10",
- "Static decision of writer/reader table agreement for SEN strings: for each byte and HTML-safe setting the quoting/escaping decision of ojg.AppendSENString (loop body interpreted with the byte concrete) is compared with the SEN reader's start, token, string, escape and decode tables, whose roles are identified from the sen.Parser dispatch loop; reserved spellings must be compared against by the writer. Whole-tree equality, numbers and time options are not decided.",
+ "Static decision of writer/reader table agreement for SEN strings: for each byte and HTML-safe setting the quoting/escaping decision of ojg.AppendSENString (loop body interpreted with the byte concrete) is compared with the SEN reader's start, token, string, escape and decode tables, whose roles are identified from the sen.Parser dispatch loop; reserved spellings must be compared against by the writer. Whole-tree equality, numbers and time options are not decided. A first byte that a []byte entry rejects in its preamble (0xEF, taken for a byte order mark) must force quotes.",
  "Trusted: as C04. Known findings ('+', '-' first bytes and null/true/false written bare; pinned by the unedited test suite) are listed in KNOWN_FINDINGS.txt.",
  "static analysis: per-byte abstract interpretation of the writer vs constant reader tables (table agreement)",
  "DESIGN.md §3 Engine G, §4 C10")
 claim("C02",
- "Static decision of structural clauses of 'values denote the text': no decimal accumulator update can wrap around (bound analysis with exact big-integer arithmetic on the guarding constants, including the borrowed Frac < Div invariant), escape and \\u tables are exact against RFC 8259 section 7 and every hex arm adds the digit's value (arm interpreted per digit), surrogate handling is present, and value/token events agree with the reference. The numeric value of results, AsNum's representation choice and decoded string contents beyond the tables are not decidable statically here and are not claimed.",
+ "Static decision of structural clauses of 'values denote the text': no decimal accumulator update can wrap around (bound analysis with exact big-integer arithmetic on the guarding constants, including the borrowed Frac < Div invariant), escape and \\u tables are exact against RFC 8259 section 7 and every hex arm adds the digit's value (arm interpreted per digit), surrogate handling is present, and value/token events agree with the reference. The numeric value of results, AsNum's representation choice and decoded string contents beyond the tables are not decidable statically here and are not claimed. N-mirror: for every step inside a number the dispatched byte is added to the text buffer used for numbers that outgrow the accumulators, or the step is on the buffer-is-empty branch (JSON front-ends, and SEN front-ends on JSON numbers).",
  "Trusted: as C01. Known findings (no surrogate pairing in five front-ends) are listed in KNOWN_FINDINGS.txt. Found by probing, outside static reach and pinned by the test suite: the parsers' fast path returns 9223372036854775807 as json.Number/Big.",
  "static analysis: guard-dominance bound analysis on multiply-accumulate sites, constant-table comparison against RFC 8259 section 7, per-digit abstract interpretation of the \\u arm, product event synchrony",
  "DESIGN.md §4 C02")
